@@ -88,11 +88,20 @@ func (l *List) Get(key []byte) (kv.Entry, error) {
 	return nil, kv.ErrNotFound
 }
 
+// ScanPrefix returns the newest live entry of every key matching the prefix.
 func (l *List) ScanPrefix(prefix []byte, errOut *error) iter.Seq[kv.Entry] {
+	return kv.WithoutDeletes(l.ScanPrefixEntries(prefix, errOut))
+}
+
+// ScanPrefixEntries returns the newest entry of every key matching the prefix
+// including delete markers. Deletes must only be dropped after every source
+// (memtables and sstables) has been merged, otherwise an older put in another
+// source reappears.
+func (l *List) ScanPrefixEntries(prefix []byte, errOut *error) iter.Seq[kv.Entry] {
 	tables := l.tablesSnap()
 	iters := make([]iter.Seq[kv.Entry], len(tables))
 	for i, table := range tables {
-		iters[i] = table.ScanPrefix(prefix)
+		iters[i] = table.ScanPrefixEntries(prefix)
 	}
 	return kv.MergeEntries(iters)
 }
